@@ -40,7 +40,7 @@ func runC17(c *fw.Ctx) {
 	deeperBounds(!c.Quick())
 	for _, shape := range Shapes(0, c.Pick(4, 6), 3) {
 		for _, lr := range c17LRs {
-			for src := 0; src < 3; src++ {
+			for src := 0; src < 4; src++ {
 				shape, lr, src := shape, lr, src
 				c.Case(func(k *fw.K) { c17Case(k, shape, lr, src) })
 			}
@@ -72,7 +72,42 @@ func runC17(c *fw.Ctx) {
 func c17Weight(k *fw.K, shape []int, src int) (w tensor.Tensor, what string, err error) {
 	wv := Shuffled(k.Rng, Unique(k.Rng, shape, 0.2, 2))
 	w = rt.MustLeaf(wv, true)
+	prov := ""
+	if k.Rng.Intn(3) == 0 { // the weight comes from a constant constructor instead (values all equal)
+		var e error
+		switch k.Rng.Intn(3) {
+		case 0:
+			w, e = tensor.Full(ref.CopyInts(shape), 0.75, rt.Conf(true))
+			prov = " (weight built by Full)"
+		case 1:
+			w, e = tensor.Ones(ref.CopyInts(shape), rt.Conf(true))
+			prov = " (weight built by Ones)"
+		default:
+			w, e = tensor.Zeros(ref.CopyInts(shape), rt.Conf(true))
+			prov = " (weight built by Zeros)"
+		}
+		if e != nil {
+			return nil, "", e
+		}
+	}
+	defer func() { what += prov }()
 	switch src {
+	case 3: // only a part of the weight is used: y = w[first row ...] * c, the gradient is zero elsewhere
+		if len(shape) == 0 {
+			break
+		}
+		cut := 1 + k.Rng.Intn(shape[0])
+		part, e := w.Slice([]tensor.Range{{From: 0, To: cut}})
+		if e != nil {
+			return nil, "", e
+		}
+		ps := ref.CopyInts(shape)
+		ps[0] = cut
+		y, e := part.Mul(rt.MustLeaf(Shuffled(k.Rng, Unique(k.Rng, ps, 1, 5)), false))
+		if e != nil {
+			return nil, "", e
+		}
+		return w, "gradient through a Slice of the weight", tensor.BackPropagate(y)
 	case 0: // y = w * c with integer c whose entries sum to exactly 0 (where possible): dy/dw = c
 		cv := ref.Zeros(shape)
 		s := 0.
@@ -134,7 +169,20 @@ func c17Case(k *fw.K, shape []int, lr lrSpec, src int) {
 		k.Failf("NewSGD(%s): panic=%v", lr.name, p)
 		return
 	}
+	var slot tensor.Tensor // ONE variable (one address) holds the tensor of every round
+	shape0 := shape
 	for round := 0; round < 2; round++ { // the same optimizer updates two different tensors
+		shape := shape0
+		if round == 1 && k.Index%2 == 0 { // ... of a different shape that would broadcast against the first
+			switch {
+			case len(shape0) >= 2:
+				shape = shape0[1+k.Rng.Intn(len(shape0)-1):]
+			case len(shape0) == 1:
+				shape = [][]int{{}, {1}, {2, shape0[0]}}[k.Rng.Intn(3)]
+			default:
+				shape = [][]int{{2}, {1, 3}}[k.Rng.Intn(2)]
+			}
+		}
 		if (k.Index+round)%4 == 0 { // ... after stepping a tensor whose gradient is not finite (a diverged step; outcome ignored)
 			call(func() {
 				bw, _, berr := c17Weight(k, shape, 0)
@@ -155,7 +203,7 @@ func c17Case(k *fw.K, shape []int, lr lrSpec, src int) {
 		var w tensor.Tensor
 		var what string
 		var err error
-		if p := call(func() { w, what, err = c17Weight(k, shape, (src+round)%3) }); p != nil || err != nil {
+		if p := call(func() { w, what, err = c17Weight(k, shape, (src+round)%4) }); p != nil || err != nil {
 			k.Failf("building a weight with a gradient failed: panic=%v err=%v", p, err)
 			return
 		}
@@ -171,7 +219,8 @@ func c17Case(k *fw.K, shape []int, lr lrSpec, src int) {
 			k.Failf("weight / gradient unreadable or gradient of shape %v for weight %v (%v %v)", gv, shape, e1, e2)
 			return
 		}
-		ptr := &w
+		slot = w
+		ptr := &slot
 		if p := call(func() { err = opt.Update(ptr) }); p != nil || err != nil {
 			k.Failf("Update(lr %s, shape %v, %s): panic=%v err=%v", lr.name, shape, what, p, err)
 			return
